@@ -25,6 +25,16 @@ void h_spin_test_and_set_other (void) {
 	(void) nsync_spin_test_and_set_ (&other_word, vp_nondet_u32 (), vp_nondet_u32 (), vp_nondet_u32 ());
 	VP_CANARY ();
 }
+static nsync_cv the_cv;
+void h_spin_test_and_set_cv (void) {
+	vp_reg_clear ();
+	vp_fw_init ();
+	vp_reg.cv_word = &the_cv.word;
+	vp_mu_init_ghost (0, 0, 0);
+	the_cv.word = vp_nondet_u32 () & (CV_SPINLOCK | CV_NON_EMPTY);
+	(void) nsync_spin_test_and_set_ (&the_cv.word, vp_nondet_u32 (), vp_nondet_u32 (), vp_nondet_u32 ());
+	VP_CANARY ();
+}
 void h_spin_delay (void) {
 	(void) nsync_spin_delay_ (vp_nondet_u32 ());
 	VP_CANARY ();
